@@ -1,0 +1,14 @@
+//go:build verif
+
+// Contracts for the deductive verification in /verif (comment-only).
+package types
+
+// LegacyDec values are integers scaled by 10^18: "fraction in (0, 1)" is 0 < f < 10^18.
+
+//@ func (Params).Validate
+//@ property C11 C14 C13 C15 C12
+//@ ensures fractions: err == nil ==> 0 < p.SlashFractionDoubleSign && p.SlashFractionDoubleSign < 1000000000000000000 && 0 < p.SlashFractionDowntime && p.SlashFractionDowntime < 1000000000000000000
+//@ ensures windows: err == nil ==> 1 <= p.MaxValidators && p.MaxValidators <= 100 && 1 <= p.MaxMissedPerWindow && p.MaxMissedPerWindow < p.SignedBlocksWindow
+//@ ensures durations: err == nil ==> p.DowntimeJailDuration >= 60000000000 && p.ExitingDuration >= p.UnlockDuration
+//@ ensures reward: err == nil ==> p.InitialBlockReward >= 1 && p.HalvingInterval >= 1
+//@ modifies nothing
